@@ -46,23 +46,28 @@ def cap_failures(B):
 
 def norm(v):
     """value normal form for comparison: numbers as float (NaN -> 'NaN'), everything else as str"""
+    if isinstance(v, (int, float)):
+        v = float(v)
+        return "NaN" if v != v else v
+    if isinstance(v, str):
+        return v
     if v is None:
         return "NaN"
     if isinstance(v, (bytes, np.bytes_)):
         return v.decode()
-    if isinstance(v, (bool, np.bool_)):
-        return float(v)
-    if isinstance(v, (int, float, np.integer, np.floating)):
+    if isinstance(v, (np.bool_, np.integer, np.floating)):
         v = float(v)
         return "NaN" if math.isnan(v) else v
-    return str(v)
+    return "NaN" if v is pd.NA else str(v)
 
 
 def values(obj):
     """list of normal-form values of a Series / Categorical / array"""
     if isinstance(obj, pd.Series):
-        obj = obj.to_numpy(dtype=object) if not isinstance(obj.dtype, pd.CategoricalDtype) else np.asarray(obj.astype(object))
-    return [norm(v) for v in list(obj)]
+        lst = obj.astype(object).tolist() if isinstance(obj.dtype, pd.CategoricalDtype) else obj.tolist()
+    else:
+        lst = list(obj)
+    return [norm(v) for v in lst]
 
 
 def raw_table(grp, chromnames=None, convert_enum=True):
@@ -106,7 +111,9 @@ def frame_matches(got, fields, cols, idx):
     """got == the stored rows idx of the requested columns, labelled idx.  returns (ok, observed)"""
     try:
         if isinstance(fields, str):
-            ok = (isinstance(got, pd.Series) and got.name == fields and list(got.index) == idx
+            # (the Series name is not checked: the statement speaks of rows and row labels only; on this tree
+            #  bins()['chrom'] of an integer-encoded file comes back unnamed)
+            ok = (isinstance(got, pd.Series) and list(got.index) == idx
                   and values(got) == [norm(cols[fields][i]) for i in idx])
             return ok, dict(index=list(map(int, got.index)), values=values(got))
         if not isinstance(got, pd.DataFrame):
@@ -119,20 +126,25 @@ def frame_matches(got, fields, cols, idx):
         return False, f"{type(e).__name__}: {e}"
 
 
-def field_specs(cols, canonical, full):
-    """column subsets: None, every non-empty subset in stored order, single names as strings (-> Series), a few re-orderings"""
+def field_specs(cols, canonical, level="all"):
+    """column selections: None, every non-empty subset in stored order, single names as strings (-> Series), a few re-orderings.
+    level 'all' = every one of them; 'singles' / 'core' / 'few' = the sub-lists that get EVERY row range when the budget is tight"""
     rest = [c for c in cols if c not in canonical]
     order = list(canonical) + rest
+    core = [None, list(canonical), order[0], [order[-1]], [order[-1], order[0]], list(reversed(order)), order[-1], [order[1]]]
+    if level == "core":
+        return core
+    if level == "few":
+        return [None, list(canonical), order[0], [order[-1], order[0]]]
+    if level == "singles":
+        return core + [[c] for c in order if [c] not in core] + [c for c in order if c not in core]
     specs = [None]
     for r in range(1, len(order) + 1):
         for sub in itertools.combinations(order, r):
             specs.append(list(sub))
     specs += list(order)                              # strings
     specs += [list(reversed(order)), [order[-1], order[0]], [order[1], order[0]]]
-    if full:
-        return specs
-    core = [None, list(canonical), order[0], [order[-1]], [order[-1], order[0]], list(reversed(order)), order[-1], [order[1]]]
-    return core
+    return specs
 
 
 def key_of(spec):
@@ -154,15 +166,16 @@ def core_ranges(n):
 
 # ------------------------------------------------------------------ part A: selectors
 class SelectorChecks:
-    def __init__(self, B, path, desc):
+    def __init__(self, B, path, desc, store=None):
         self.B, self.path, self.desc = B, path, desc
         self.ref = Ref(path)
-        self.clr = cooler.Cooler(path)
+        self.clr = cooler.Cooler(path if store is None else store)
 
     def selector(self, table, **kw):
         return getattr(self.clr, table)(**kw)
 
-    def sweep_table(self, table, canonical, full, convert_enum=True, all_ranges_specs=None):
+    def sweep_table(self, table, canonical, wide="all", convert_enum=True, wide_specs=None, only_with=None):
+        """every column selection x (EVERY slice if the selection is in the `wide` list, else ~18 slice spellings)"""
         B, ref = self.B, self.ref
         cols = (ref.tab if convert_enum else ref.tab_noconv)[table]
         n = ref.n[table]
@@ -174,15 +187,17 @@ class SelectorChecks:
         if got is not None:
             B.check("selector-length==stored-length", got == (n, (n,)), case0, list(got), [n, [n]], True,
                     f"selector-length==stored-length:{table}")
-        specs = field_specs(cols, canonical, full=True)
+        specs = field_specs(cols, canonical, "all")
         allr = [(a, b) for a in slice_bounds(n) for b in slice_bounds(n)]
         corer = core_ranges(n) if n > 0 else [(None, None), (0, 0), (None, 0), (0, None)]
-        core_specs = field_specs(cols, canonical, full=False) if all_ranges_specs is None else all_ranges_specs
+        wide_specs = field_specs(cols, canonical, wide) if wide_specs is None else wide_specs
         rows = list(range(n))
         for spec in specs:
-            is_core = any(key_of(spec) == key_of(s) for s in core_specs)
+            if only_with is not None and spec is not None and only_with not in ([spec] if isinstance(spec, str) else spec):
+                continue        # (re-sweeps for another chromosome encoding: only selections that contain that column)
+            is_core = any(key_of(spec) == key_of(s) for s in wide_specs)
             sel = base if spec is None else base[spec]
-            for (a, b) in (allr if (full or is_core) else corer):
+            for (a, b) in (allr if is_core else corer):
                 idx = rows[a:b]                                  # python / pandas slicing semantics
                 case = dict(case0, fields=spec, rows=[a, b])
                 kind = "empty" if not idx else "non-empty"
@@ -195,7 +210,7 @@ class SelectorChecks:
                                                                      ([spec] if isinstance(spec, str) else (spec or list(cols)))}),
                         bool(idx), sig)
             # scalars: one row, labelled with its row number
-            if full or is_core:
+            if is_core:
                 for s in range(-n, n):
                     idx = [s % n]
                     case = dict(case0, fields=spec, scalar=s)
@@ -204,6 +219,30 @@ class SelectorChecks:
                     if got is not None:
                         ok, obs = frame_matches(got, spec, cols, idx)
                         B.check("selector-scalar==that-row", ok, case, obs, dict(index=idx), True, sig)
+
+    def sweep_beyond(self, table, canonical):
+        """bounds that lie beyond the table (a < -n, b < -n, b > n, a > n): the index range they denote is the clipped one, as for
+        lists / arrays / DataFrame.iloc.  Own contract and signatures (negative / positive side)"""
+        B, ref = self.B, self.ref
+        cols = ref.tab[table]
+        n = ref.n[table]
+        base = self.selector(table)
+        contract = "selector-bound-beyond-table==clipped-range"
+        rng_ = [(a, b) for a in (-n - 2, -n - 1) for b in (None, 1, n)] + \
+               [(a, b) for a in (None, 0, 1) for b in (n + 1, n + 3, -n - 1, -n - 2)] + [(n + 1, n + 2), (n + 1, None), (-n - 1, -n - 1)]
+        rows = list(range(n))
+        for spec in field_specs(cols, canonical, "few"):
+            sel = base if spec is None else base[spec]
+            for (a, b) in rng_:
+                idx = rows[a:b]
+                neg = (a is not None and a < -n) or (b is not None and b < -n)
+                case = dict(self.desc, table=table, nrows=n, fields=spec, rows=[a, b])
+                sig = f"{contract}:{'negative' if neg else 'positive'}-bound-beyond-table"
+                got = B.guarded(contract, case, lambda: sel[a:b], signature=sig + ":exception")
+                if got is None:
+                    continue
+                ok, obs = frame_matches(got, spec, cols, idx)
+                B.check(contract, ok, case, obs, dict(index=idx), bool(idx), sig)
 
     def sweep_get(self, table):
         """core.get(grp, lo, hi, fields) called directly on an open group, hi=None included"""
@@ -257,7 +296,8 @@ class SelectorChecks:
                 spec = list(spec) if isinstance(spec, tuple) else spec
                 idx = list(range(i0, i1)) if table == "bins" else [t for t, x in enumerate(pb1) if i0 <= x < i1]
                 case = dict(self.desc, table=table, fields=spec, region=repr(reg))
-                sig = f"{contract}:{table}"
+                # (a table whose last bin is LONGER than the others gets its own signature: get_binsize reports it as fixed-width)
+                sig = f"{contract}:{table}" + (":long-last-bin-table" if "long-last" in str(self.desc.get("bins")) else "")
                 got = B.guarded(contract, case, lambda: sel.fetch(reg), signature=sig + ":exception")
                 if got is not None:
                     ok, obs = frame_matches(got, spec, ref.tab[table], idx)
@@ -271,11 +311,11 @@ class SelectorChecks:
         contract = "pixels-join==own-bin-coordinates"
         base = self.clr.pixels(join=True)
         specs = [None, ["bin1_id", "bin2_id", "count"], ["bin2_id", "count"], ["count", "bin1_id"], ["count"]]
-        ranges = [(a, b) for a in slice_bounds(n) for b in slice_bounds(n)] if full else \
-            (core_ranges(n) if n else [(None, None)])
+        allr = [(a, b) for a in slice_bounds(n) for b in slice_bounds(n)]
+        corer = core_ranges(n) if n else [(None, None), (0, 0)]
         for spec in specs:
             sel = base if spec is None else base[spec]
-            for (a, b) in ranges:
+            for (a, b) in (allr if (full and (spec is None or self.B.thorough)) else corer):
                 idx = list(range(n))[a:b]
                 pcols = list(pix) if spec is None else spec
                 case = dict(self.desc, table="pixels", join=True, fields=spec, rows=[a, b])
@@ -396,7 +436,7 @@ class AnnotateChecks:
         contract = "annotate==own-bins-columns"
         for fname, bobj, cols, bcols, blen in self.bins_forms(used, few_forms=not selector_forms):
             case = dict(self.desc, pixels=seqdesc if seqdesc is not None else [list(p) for p in seq], pixel_columns=list(pix.columns),
-                        index=variant[1], id_dtype=np.dtype(variant[2]).name, bins=fname, replace=replace)
+                        index=variant[1], id_dtype=np.dtype(variant[2]).name, bins_form=fname, replace=replace)
             fkind = fname.split("[")[0] if fname.startswith("partial") else fname
             size = "empty-pixels" if len(seq) == 0 else ("few-pixels" if blen > len(seq) else "many-pixels")
             sig = f"{contract}:{fkind}:{size}"
@@ -508,22 +548,26 @@ def main():
     if B.thorough:
         sel_full = ["one-bin-chroms", "fixed10-short-last"]
         sel_core = ["variable", "fixed10-exact", "single-chrom-fixed", "fixed-3chrom", "variable-long-last"]
-        ann = [("one-bin-chroms", 3), ("fixed10-short-last", 2), ("variable", 2)]
+        ann = [("one-bin-chroms", 4), ("fixed10-short-last", 2), ("variable", 2)]
     else:
         sel_full = ["one-bin-chroms"]
         sel_core = ["fixed10-short-last"]
-        ann = [("one-bin-chroms", 3), ("fixed10-short-last", 1)]
+        ann = [("one-bin-chroms", 3), ("fixed10-short-last", 2)]
+    wide_full = "EVERY column selection" if B.thorough else "the 8 core selections + every single column in list and string form (pixels table: 4 selections)"
+    wide_core = "8 core column selections" if B.thorough else "4 column selections (None, canonical triple/pair, one string, one re-ordered pair)"
     B.bound = (
-        f"selectors: tables {sel_full}: chroms/bins/pixels x EVERY column subset (lists in stored order, single names as strings, re-orderings, None) "
-        "x EVERY slice [a:b], a,b in {None,-n..n} (reversed ones = empty) and every scalar -n..n-1; "
-        f"tables {sel_core}: 8 column selections x every slice + every column subset x ~18 slice spellings; enum AND integer chromosome encoding, "
-        "convert_enum=False, empty pixel table, byte-string/float(NaN)/extra pixel columns; core.get(lo,hi|None) directly; fetch(region) for whole/aligned/"
-        "unaligned non-empty ranges; pixels(join=True). "
+        "selectors: chroms/bins/pixels x EVERY column selection (None, every non-empty subset as a list in stored order, every single name as a string, "
+        "3 re-orderings) x ~18 slice spellings (open/empty/negative/reversed/one-row), and EVERY slice [a:b], a,b in {None,-n..n} (reversed = empty) + every "
+        f"scalar -n..n-1 for: the chroms table (all selections), tables {sel_full} -> {wide_full}; tables {sel_core} -> {wide_core}; "
+        "bins table also with integer-encoded chromosomes (Cooler on an open handle, square storage) and convert_enum=False (selections with 'chrom' x every "
+        "slice); empty pixel table; byte-string / float(NaN) bin columns, extra pixel column; core.get(grp, lo, hi|None, fields) for all 0<=lo<=hi<=n; "
+        "slices with a bound beyond the table (a,b in {-n-2,-n-1,n+1,n+3}) x 4 selections; "
+        "fetch(region) on bins/pixels selectors for whole/aligned/unaligned non-empty ranges; pixels(join=True) x 5 field lists. "
         f"annotate: for (table, L) in {ann}: EVERY sequence of <=L (bin1,bin2) pairs over all n^2 pairs (any order, repeats) x the full frame + EVERY "
         "contiguous partial frame [p,q) containing the ids used (+ selector / column-subset selector / convert_enum=False selector / column-subset "
-        "frame on every 4th-7th sequence), rotating over {both ids, bin1 only, bin2 only, swapped column order} x 4 index labelings x int64/int32/uint32 ids "
-        "x replace; the stored pixel table in 5 orders + shuffles/samples (many pixels)"
-        + ("; PLUS seeded sampling: random longer sequences on random 6-9 bin tables" if B.thorough else ""))
+        "frame on every 6th (3-bin table) / 10th sequence), rotating over {both ids, bin1 only, bin2 only, swapped column order} x 4 index labelings x int64/int32/uint32 ids "
+        "x extra column x replace; the stored pixel table in 5 orders + shuffles/samples (many pixels); enum and integer encodings"
+        + ("; PLUS seeded sampling: 60 random sequences (1..3n pixels) on each of 8 random 6-9 bin tables" if B.thorough else ""))
     B.rule = ("case = (table, encoding, selector table, fields, range | pixel sequence, pixel-frame shape, bins form, replace); "
               "non-trivial when the selected range / pixel sequence is non-empty; distinct by case")
     B.exhaustive = not B.thorough
@@ -533,30 +577,44 @@ def main():
         return dict(matrices(n, random.Random(2000 + n), 5))[name]
 
     # ---------------- part A
+    # (the chroms and pixels tables do not depend on the chromosome encoding of the bin table: they are swept on the enum file,
+    #  the integer-encoded file gets the bins table, get(), fetch and the join)
     for tname in sel_full + sel_core:
         bins = tabs[tname]
         n = len(bins)
         full = tname in sel_full
-        for enc in ("enum", "int"):
-            mname = "dense" if (n <= 3) else "sparse-empty-row"
-            symm = enc == "enum"
-            p = build(B, f"sel-{tname}-{enc}", bins, mat(n, mname), symm, int_chroms=(enc == "int"))
-            sc = SelectorChecks(B, p, dict(bins=tname, chrom_encoding=enc, matrix=mname, symmetric_upper=symm))
-            sc.sweep_table("chroms", ["name", "length"], full=True)
-            sc.sweep_table("bins", ["chrom", "start", "end"], full=full)
-            sc.sweep_table("pixels", ["bin1_id", "bin2_id"], full=full)
-            if enc == "enum" or B.thorough:
-                sc.sweep_table("bins", ["chrom", "start", "end"], full=False, convert_enum=False,
-                               all_ranges_specs=[None, "chrom", ["end", "chrom"]])
-            for t in ("chroms", "bins", "pixels"):
-                sc.sweep_get(t)
+        mname = "dense" if (n <= 3) else "sparse-empty-row"
+        p = build(B, f"sel-{tname}-enum", bins, mat(n, mname), True)
+        sc = SelectorChecks(B, p, dict(bins=tname, chrom_encoding="enum", matrix=mname, symmetric_upper=True, store="path"))
+        sc.sweep_table("chroms", ["name", "length"], wide="all")
+        sc.sweep_table("bins", ["chrom", "start", "end"], wide=("all" if B.thorough else "singles") if full else ("core" if B.thorough else "few"))
+        sc.sweep_table("pixels", ["bin1_id", "bin2_id"], wide=("all" if full else "core") if B.thorough else "few")
+        sc.sweep_table("bins", ["chrom", "start", "end"], wide=None, convert_enum=False, only_with="chrom",
+                       wide_specs=[None, "chrom", ["end", "chrom"]] if full or B.thorough else ["chrom"])
+        for t in ("chroms", "bins", "pixels"):
+            sc.sweep_get(t)
+        sc.sweep_beyond("chroms", ["name", "length"])
+        sc.sweep_beyond("bins", ["chrom", "start", "end"])
+        sc.sweep_beyond("pixels", ["bin1_id", "bin2_id"])
+        sc.sweep_fetch()
+        sc.sweep_pixels_join(full=full)
+        # integer-encoded chromosomes, square storage, Cooler built on an open h5py handle
+        p = build(B, f"sel-{tname}-int", bins, mat(n, mname), False, int_chroms=True)
+        with h5py.File(p, "r") as h5:
+            sc = SelectorChecks(B, p, dict(bins=tname, chrom_encoding="int", matrix=mname, symmetric_upper=False, store="handle"), store=h5)
+            sc.sweep_table("bins", ["chrom", "start", "end"], wide=None, only_with="chrom",
+                           wide_specs=[None, "chrom", ["end", "chrom"], ["chrom"]] + ([["chrom", "start", "end"], ["weight", "chrom"]] if B.thorough else []))
+            if B.thorough:
+                sc.sweep_table("bins", ["chrom", "start", "end"], wide=None, convert_enum=False, only_with="chrom", wide_specs=[None, "chrom"])
+                sc.sweep_table("pixels", ["bin1_id", "bin2_id"], wide="few")
+            sc.sweep_get("bins")
             sc.sweep_fetch()
-            sc.sweep_pixels_join(full=full and (enc == "enum" or B.thorough))
+            sc.sweep_pixels_join(full=False)
         if full:
             # the empty pixel table
             p = build(B, f"sel-{tname}-empty", bins, mat(n, "empty"), True)
-            sc = SelectorChecks(B, p, dict(bins=tname, chrom_encoding="enum", matrix="empty", symmetric_upper=True))
-            sc.sweep_table("pixels", ["bin1_id", "bin2_id"], full=True)
+            sc = SelectorChecks(B, p, dict(bins=tname, chrom_encoding="enum", matrix="empty", symmetric_upper=True, store="path"))
+            sc.sweep_table("pixels", ["bin1_id", "bin2_id"], wide="all")
             sc.sweep_pixels_join(full=True)
             sc.sweep_get("pixels")
 
@@ -569,7 +627,7 @@ def main():
                 L = 2
             p = build(B, f"ann-{tname}-{enc}", bins, mat(n, "dense"), True, int_chroms=(enc == "int"))
             ac = AnnotateChecks(B, p, dict(bins=tname, nbins=n, chrom_encoding=enc))
-            ac.sweep_sequences(L, selector_every=(4 if n <= 3 else 7))
+            ac.sweep_sequences(L, selector_every=(6 if n <= 3 else 10))
             ac.sweep_stored(rng, nperm=3 if B.thorough else 1)
     if B.thorough:
         for t in range(8):
